@@ -12,11 +12,11 @@ import re
 
 PROPERTY = "C20"
 RULE = (
-    "case = one well-nested program of with-blocks (tree of (class, argument choice, body, raise position)); "
-    "enumerated: every class x every argument choice alone (normal exit and exception), all same-class nestings to "
-    "depth 3, all ordered pairs of classes (depth 2, 2 argument choices each, exception positions), random programs "
-    "to depth 6/length 12; distinct = distinct (nesting signature of classes+argument kinds, exception position); "
-    "non-trivial iff at least one publicly visible field changed inside the program (so a restore is observable)"
+    'case = one well-nested program of with-blocks (tree of (class, argument choice, body, raise position)); argument choices incl. hostile ones '
+    "(0, negative) and values far apart on both sides of the other settings' defaults; enumerated: every class x every argument choice alone "
+    '(normal exit and exception), all same-class nestings to depth 3, all ordered pairs of classes (depth 2, 2 argument choices each, exception '
+    'positions), random programs to depth 6/length 12; distinct = distinct (nesting signature of classes+argument kinds, exception position); '
+    'non-trivial iff at least one publicly visible field changed inside the program (so a restore is observable)'
 )
 REQUIRED = ["enter_matches_model", "exit_matches_model", "end_equals_defaults", "inner_value_visible"]
 ASSUMPTIONS = [
